@@ -312,6 +312,23 @@ fn mem_state(ctx: &mut Ctx, cfg: &Cfg, store: &BootstrapCacheStore, clean: bool)
     s
 }
 
+/// A reported success must count as a success and a reported failure as a failure (the statement's
+/// "more failures than successes" is about what was reported): compare the counters of `addr` before and
+/// after `n` reports of `ok`. Counters that would pass u32::MAX are left alone (the code resets them).
+fn judge_counters(ctx: &mut Ctx, before: &Snap, after: &Snap, addr: &str, ok: bool, n: u64) {
+    let (Some(b), Some(a)) = (before.ents.iter().find(|e| e.addr == addr), after.ents.iter().find(|e| e.addr == addr)) else { return };
+    if b.succ + n > u32::MAX as u64 || b.fail + n > u32::MAX as u64 {
+        return;
+    }
+    let (want_s, want_f) = if ok { (b.succ + n, b.fail) } else { (b.succ, b.fail + n) };
+    if (a.succ, a.fail) != (want_s, want_f) {
+        ctx.fail(
+            "update:reported_outcome_counted_wrongly",
+            format!("{n} report(s) of {} for {addr}: successes {} -> {}, failures {} -> {} (expected {want_s} / {want_f})", if ok { "success" } else { "failure" }, b.succ, a.succ, b.fail, a.fail),
+        );
+    }
+}
+
 pub fn check(case: &History, ctx: &mut Ctx) {
     let cfg = &case.cfg;
     let n_peers = (case.n_peers as usize).clamp(1, 8);
@@ -390,6 +407,7 @@ pub fn check(case: &History, ctx: &mut Ctx) {
                 if before.ids() != after.ids() {
                     ctx.fail("update:changed_the_set_of_addrs", format!("{} => {}", before.brief(), after.brief()));
                 }
+                judge_counters(ctx, &before, &after, &addr.to_string(), *ok, (*times).min(8) as u64);
             }
             Op::UpdatePresent { pick, ok, times } => {
                 let before = snap_store(&store);
@@ -409,6 +427,7 @@ pub fn check(case: &History, ctx: &mut Ctx) {
                 if before.ids() != after.ids() {
                     ctx.fail("update:changed_the_set_of_addrs", format!("{} => {}", before.brief(), after.brief()));
                 }
+                judge_counters(ctx, &before, &after, &e.addr, *ok, (*times).min(8) as u64);
                 ctx.label(if *ok { "update_success" } else { "update_failure" });
             }
             Op::Cleanup => {
